@@ -60,6 +60,10 @@ pub struct SimConfig {
     pub net_seed: u64,
     pub max_steps: u64,
     pub step_jitter_ns: u64,
+    /// watchdog: if the thread holding the baton reaches no scheduling point for this many
+    /// milliseconds of REAL time the run is declared spinning (0 = off). The real clock is
+    /// read only here and decides nothing else.
+    pub spin_limit_ms: u64,
     pub net: NetConfig,
     /// scripted payload faults: (n-th datagram copy delivered overall, fault)
     pub scripted_payload: Vec<(u64, PayloadFaultSpec)>,
@@ -73,6 +77,7 @@ impl Default for SimConfig {
             net_seed: 1,
             max_steps: 200_000,
             step_jitter_ns: 20_000,
+            spin_limit_ms: 10_000,
             net: NetConfig::default(),
             scripted_payload: Vec::new(),
         }
@@ -125,6 +130,8 @@ pub enum EvKind {
     NetDrop { dgram: u32, sock: u32, reason: DropReason },
     Recv { sock: u32, dgram: u32, len: u32 },
     RecvErr { sock: u32, kind: RecvErrKind },
+    /// the thread (re)arms a receive: whatever it did for the previous datagram is finished
+    RecvArm { sock: u32 },
     LockAcq { lock: u32, write: bool },
     LockRel { lock: u32, write: bool },
     LockBlock { lock: u32, write: bool },
@@ -213,6 +220,9 @@ pub enum Outcome {
     RootPanicked,
     Deadlock,
     StepLimit,
+    /// a simulated thread kept the baton without reaching a scheduling point (endless loop in
+    /// the code under test); its OS thread is leaked, the process should exit soon
+    Spin,
 }
 
 pub struct RunResult {
@@ -227,6 +237,8 @@ pub struct RunResult {
     pub thread_nodes: Vec<u32>,
     pub fingerprint: u64,
     pub root_panic: Option<PanicInfo>,
+    /// thread that was spinning when the watchdog fired
+    pub spin_tid: Option<u32>,
 }
 
 // ---------------------------------------------------------------- internal state
@@ -239,6 +251,9 @@ pub(crate) enum TState {
     RecvBlocked { sock: u32, deadline: Option<u64> },
     LockBlocked { lock: u32 },
     JoinBlocked { tid: u32 },
+    /// an async task whose future returned Pending: runnable again when its waker fires, a
+    /// datagram reaches one of `socks`, or `deadline` passes
+    TaskBlocked { socks: Vec<u32>, deadline: Option<u64> },
     Finished,
 }
 
@@ -275,6 +290,8 @@ pub(crate) struct ThreadSlot {
     pub name: String,
     pub killed: bool,
     pub scopes: Vec<String>,
+    /// waker fired since the task last looked
+    pub notified: bool,
 }
 
 pub(crate) struct Sock {
@@ -471,6 +488,7 @@ impl Inner {
             EvKind::NetDrop { dgram, sock, .. } => 5 | ((*sock as u64) << 8) | ((*dgram as u64) << 32),
             EvKind::Recv { sock, dgram, .. } => 6 | ((*sock as u64) << 8) | ((*dgram as u64) << 32),
             EvKind::RecvErr { sock, .. } => 7 | ((*sock as u64) << 8),
+            EvKind::RecvArm { sock } => 14 | ((*sock as u64) << 8),
             EvKind::LockAcq { lock, write } => 8 | ((*lock as u64) << 8) | ((*write as u64) << 40),
             EvKind::LockRel { lock, write } => 9 | ((*lock as u64) << 8) | ((*write as u64) << 40),
             EvKind::LockBlock { lock, write } => 10 | ((*lock as u64) << 8) | ((*write as u64) << 40),
@@ -525,10 +543,13 @@ impl Inner {
         self.stats.delivered += 1;
         self.ev(cur, EvKind::Deliver { dgram, sock });
         for t in self.threads.iter_mut() {
-            if let TState::RecvBlocked { sock: s2, .. } = t.state {
-                if s2 == sock {
-                    t.state = TState::Runnable;
-                }
+            let wake = match &t.state {
+                TState::RecvBlocked { sock: s2, .. } => *s2 == sock,
+                TState::TaskBlocked { socks, .. } => socks.contains(&sock),
+                _ => false,
+            };
+            if wake {
+                t.state = TState::Runnable;
             }
         }
     }
@@ -554,6 +575,7 @@ impl Inner {
             match t.state {
                 TState::Sleeping { until } => upd(until.max(floor)),
                 TState::RecvBlocked { deadline: Some(d), .. } => upd(d.max(floor)),
+                TState::TaskBlocked { deadline: Some(d), .. } => upd(d.max(floor)),
                 TState::Runnable => {
                     if floor > 0 {
                         upd(floor)
@@ -585,10 +607,11 @@ impl Inner {
                 if self.node_stalled(t.node) {
                     continue;
                 }
-                let ok = match t.state {
+                let ok = match &t.state {
                     TState::Runnable => true,
-                    TState::Sleeping { until } => until <= now,
-                    TState::RecvBlocked { deadline: Some(d), .. } => d <= now,
+                    TState::Sleeping { until } => *until <= now,
+                    TState::RecvBlocked { deadline: Some(d), .. } => *d <= now,
+                    TState::TaskBlocked { deadline, .. } => t.notified || deadline.map(|d| d <= now).unwrap_or(false),
                     _ => false,
                 };
                 if ok {
@@ -711,6 +734,7 @@ impl Sim {
             name,
             killed: false,
             scopes: Vec::new(),
+            notified: false,
         });
         g.stats.threads += 1;
         g.ev(parent, EvKind::Spawn { child: tid });
@@ -856,6 +880,7 @@ pub fn run<F: FnOnce() + Send + 'static>(cfg: SimConfig, root: F) -> RunResult {
                 name: "root".into(),
                 killed: false,
                 scopes: Vec::new(),
+                notified: false,
             }],
             current: 0,
             events: BinaryHeap::new(),
@@ -887,24 +912,42 @@ pub fn run<F: FnOnce() + Send + 'static>(cfg: SimConfig, root: F) -> RunResult {
         .stack_size(4 << 20)
         .spawn(move || thread_main(s2, 0, Box::new(root)))
         .expect("simrt: root thread spawn failed");
+    let mut spun: Option<u32> = None;
     {
         let mut g = sim.lock();
+        let mut last_steps = g.stats.steps;
+        let mut last_change = std::time::Instant::now();
         while !g.done {
-            g = match sim.done_cv.wait(g) {
-                Ok(g) => g,
+            let (g2, _) = match sim.done_cv.wait_timeout(g, std::time::Duration::from_millis(250)) {
+                Ok(x) => x,
                 Err(p) => p.into_inner(),
             };
+            g = g2;
+            if g.done || sim.cfg.spin_limit_ms == 0 {
+                continue;
+            }
+            if g.stats.steps != last_steps {
+                last_steps = g.stats.steps;
+                last_change = std::time::Instant::now();
+            } else if last_change.elapsed().as_millis() as u64 > sim.cfg.spin_limit_ms {
+                spun = Some(g.current);
+                g.outcome = Outcome::Spin;
+                g.shutdown = true;
+                break;
+            }
         }
     }
-    let _ = root_handle.join();
-    // join every simulated OS thread (they unwind with SimAbort)
-    loop {
-        let hs: Vec<_> = std::mem::take(&mut sim.lock().os_handles);
-        if hs.is_empty() {
-            break;
-        }
-        for h in hs {
-            let _ = h.join();
+    if spun.is_none() {
+        let _ = root_handle.join();
+        // join every simulated OS thread (they unwind with SimAbort)
+        loop {
+            let hs: Vec<_> = std::mem::take(&mut sim.lock().os_handles);
+            if hs.is_empty() {
+                break;
+            }
+            for h in hs {
+                let _ = h.join();
+            }
         }
     }
     let mut g = sim.lock();
@@ -920,6 +963,7 @@ pub fn run<F: FnOnce() + Send + 'static>(cfg: SimConfig, root: F) -> RunResult {
         thread_nodes: g.threads.iter().map(|t| t.node).collect(),
         fingerprint: g.fingerprint,
         root_panic: g.root_panic.take(),
+        spin_tid: spun,
     }
 }
 
